@@ -9,5 +9,7 @@ GenNone == {}
 Emit ==
     /\ \A l \in MCInts : PrintT(<<"VEC", ToJson([l |-> l, x |-> Denote(l), want |-> MapInt(l)])>>)
     /\ \A d \in MCDatums : PrintT(<<"VEC", ToJson([l |-> d, want |-> MapDatum(d)])>>)
+    \* lovelace / asset quantities (u64_to_bigint): the harness puts them into an output's value
+    /\ \A c \in U64s \cup {Pow2(32), Pow2(62)} : PrintT(<<"VEC", ToJson([coin |-> IntV(c), want |-> MapU64(c)])>>)
 ASSUME Emit
 =============================================================================
